@@ -127,6 +127,15 @@ def mk(k, v, w, reps, busy, exact, family, seed=None):
     return Case('f64', line, tm, meta=meta, family=family,
                 nontrivial=(len(v) >= 1), tol=0.0, exact_bits=True)
 
+def mk_hist(ks, n, seed):
+    """one process, the affinity changed between calls: a worker count cached from an earlier call must not be used"""
+    v, w = gen_data(1, n, seed)
+    line = "vec.pardot_hist %s %s %s" % (tok_vec('f64', v), tok_vec('f64', w), "[" + ",".join(str(k) for k in ks) + "]")
+    ts = [OBSERVED.get(k, k) for k in ks]
+    tm = " ++ ".join("pardot_gen_out %d 1 %d 1 (%d)%%uint63" % (t, n, seed) for t in ts)
+    meta = {"hist": list(ks), "v": v, "w": w, "exact": True, "seed": seed, "n": n}
+    return Case('f64', line, tm, meta=meta, family="affinity-history", nontrivial=(n >= 1), tol=0.0, exact_bits=True)
+
 def generate(rng, tier):
     cases = []
     reps = 5 if tier == "thorough" else 3
@@ -161,6 +170,13 @@ def generate(rng, tier):
             cases.append(mk(k, v, w, reps, 2 if g.chance(1, 3) else 0, ex, "long-" + ("exact" if ex else "arbitrary")))
         # mismatched sizes: the guard fires before anything is spawned
         cases.append(mk(k, [1.0, 2.0], [1.0], 1, 0, True, "size-mismatch"))
+    # affinity histories inside one process (widening and narrowing masks): seeded mutation C16-8 cached the CPU count
+    kmax = min(len(CPUS), 16)
+    if kmax >= 2:
+        g = rng.fork("affinity-history")
+        for h in range(40 if tier == "thorough" else 12):
+            ks = [1, kmax] if h == 0 else ([kmax, 1, kmax] if h == 1 else [g.range(1, kmax) for _ in range(g.range(2, 5))])
+            cases.append(mk_hist(ks, g.range(0, 64) if h > 1 else 37, g.next() & M63))
     return cases
 
 def extra_coverage():
@@ -171,12 +187,29 @@ def extra_coverage():
 def case_from_json(j):
     m = j["meta"]
     if not OBSERVED: probe_worker_counts()
+    if "hist" in m:
+        return mk_hist(m["hist"], m["n"], m["seed"]) if max(m["hist"]) <= len(CPUS) else None
     if m["k"] > len(CPUS):
         return None          # this affinity cannot be set on the present machine
     return mk(m["k"], [float(x) for x in m["v"]], [float(x) for x in m["w"]], m.get("reps", 3), m.get("busy", 0), m.get("exact", False), "corpus")
 
+def oracle_hist(case, items):
+    m = case.meta
+    v, w, ks = m["v"], m["w"], m["hist"]
+    if any(it[0] == 'P' for it in items):
+        return "dot_f64 panicked (%s) in a process whose affinity changes between calls (%s CPUs in turn; length %d)" % (items[-1][1], ks, len(v))
+    if len(items) != 3 * len(ks): return "malformed answer: %r" % (items[:6],)
+    exact = sum((Fraction(a) * Fraction(b) for a, b in zip(v, w)), Fraction(0))
+    for i, k in enumerate(ks):
+        t, par, seq = items[3 * i][1], items[3 * i + 1][1], items[3 * i + 2][1]
+        if par != seq or Fraction(bits_f64(par)) != exact:
+            return ("exact-sum data, length %d: call %d of a process whose affinity went through %s CPUs (num_cpus::get() = %s now) returned dot_f64 = %r, "
+                    "dot = %r, exact value %s" % (len(v), i + 1, ks[:i + 1], t, bits_f64(par), bits_f64(seq), exact))
+    return None
+
 def oracle(case, items):
     m = case.meta
+    if "hist" in m: return oracle_hist(case, items)
     v, w, k, reps = m["v"], m["w"], m["k"], m["reps"]
     if len(v) != len(w):
         if not (items and items[-1][0] == 'P'):
